@@ -278,6 +278,71 @@ bool has_invpow(const Basic &b)
     return false;
 }
 
+// integer exponents beyond +-4 make the rational-function normal form of the Lean checker large
+bool has_big_exp(const Basic &b)
+{
+    if (is_a<Pow>(b)) {
+        const Pow &p = down_cast<const Pow &>(b);
+        if (is_a<Integer>(*p.get_exp())) {
+            const integer_class &n = down_cast<const Integer &>(*p.get_exp()).as_integer_class();
+            if (n > 4 || n < -4)
+                return true;
+        }
+    }
+    for (auto &a : b.get_args())
+        if (has_big_exp(*a))
+            return true;
+    return false;
+}
+
+// Rough number of monomials of the expanded rational-function normal form the Lean checker computes
+// (numerators and denominators multiplied out); function arguments / non-integer powers are atoms at
+// their level and are compared separately, so their own cost is added, not multiplied.
+double ecost(const Basic &b, double &nested)
+{
+    auto cap = [](double x) { return x > 1e12 ? 1e12 : x; };
+    if (is_a<Add>(b)) {
+        double s = 0, dens = 1;
+        for (auto &a : b.get_args()) {
+            double c = ecost(*a, nested);
+            s += c;
+            // every term with a negative power contributes a denominator that multiplies the others
+            if (is_a<Pow>(*a) || is_a<Mul>(*a)) {
+                for (auto &f : (is_a<Mul>(*a) ? a->get_args() : vec_basic{a}))
+                    if (is_a<Pow>(*f) && is_a<Integer>(*down_cast<const Pow &>(*f).get_exp())
+                        && down_cast<const Integer &>(*down_cast<const Pow &>(*f).get_exp()).is_negative()) {
+                        double d = ecost(*f, nested);
+                        dens = cap(dens * d);
+                    }
+            }
+        }
+        return cap(s * dens);
+    }
+    if (is_a<Mul>(b)) {
+        double p = 1;
+        for (auto &a : b.get_args())
+            p = cap(p * ecost(*a, nested));
+        return p;
+    }
+    if (is_a<Pow>(b)) {
+        const Pow &p = down_cast<const Pow &>(b);
+        if (is_a<Integer>(*p.get_exp())) {
+            long n = mp_fits_slong_p(down_cast<const Integer &>(*p.get_exp()).as_integer_class())
+                         ? std::labs(down_cast<const Integer &>(*p.get_exp()).as_int())
+                         : 100;
+            double c = ecost(*p.get_base(), nested);
+            return cap(std::pow(c, (double)std::min(n, 100L)));
+        }
+    }
+    // atom: its arguments are separate comparisons
+    for (auto &a : b.get_args()) {
+        double sub = 0;
+        double c = ecost(*a, sub);
+        nested = std::max(nested, std::max(c, sub));
+    }
+    return 1;
+}
+
 std::string opline(const vec_basic &v)
 {
     std::string s = "cse";
@@ -414,7 +479,12 @@ void hx_gen(Rng &rng, const std::string &tier)
             continue;
         bool bad = false;
         for (auto &e : v)
-            bad = bad || has_invpow(*e);
+        {
+            bad = bad || has_invpow(*e) || has_big_exp(*e);
+            double nested = 0;
+            double c = ecost(*e, nested);
+            bad = bad || c > 400 || nested > 400;
+        }
         if (bad)
             continue;
         // size guard: keep the Lean normaliser fast
